@@ -8,23 +8,24 @@ import UtilModel.Core.Monitor
 * `run_first_flip`: if a state predicate is false at the start of a run and true at its end, some
   step of the run turned it from false to true (used for "returns … only after …" theorems).
 -/
-namespace UtilModel
+namespace UtilModel.Broadcast
+open UtilModel
 
 variable {σ ε ο μ ν : Type}
 
-def ObsMonitor.prod (a : ObsMonitor ο μ) (b : ObsMonitor ο ν) : ObsMonitor ο (μ × ν) where
+def monProd (a : ObsMonitor ο μ) (b : ObsMonitor ο ν) : ObsMonitor ο (μ × ν) where
   init := (a.init, b.init)
   step := fun m o =>
     match a.step m.1 o, b.step m.2 o with
     | some x, some y => some (x, y)
     | _, _ => none
 
-theorem ObsMonitor.prod_run_isSome (a : ObsMonitor ο μ) (b : ObsMonitor ο ν) (h : List ο) (m : μ × ν) :
-    ((a.prod b).run m h).isSome = ((a.run m.1 h).isSome && (b.run m.2 h).isSome) := by
+theorem monProd_run_isSome (a : ObsMonitor ο μ) (b : ObsMonitor ο ν) (h : List ο) (m : μ × ν) :
+    ((monProd a b).run m h).isSome = ((a.run m.1 h).isSome && (b.run m.2 h).isSome) := by
   induction h generalizing m with
   | nil => simp [ObsMonitor.run]
   | cons o os ih =>
-    simp only [ObsMonitor.run, ObsMonitor.prod]
+    simp only [ObsMonitor.run, monProd]
     cases ha : a.step m.1 o with
     | none => simp
     | some x =>
@@ -32,16 +33,16 @@ theorem ObsMonitor.prod_run_isSome (a : ObsMonitor ο μ) (b : ObsMonitor ο ν)
       | none => simp
       | some y =>
         have := ih (x, y)
-        simpa [ObsMonitor.prod] using this
+        simpa [monProd] using this
 
 /-- the product monitor accepts exactly the histories both monitors accept -/
-theorem ObsMonitor.prod_accepts (a : ObsMonitor ο μ) (b : ObsMonitor ο ν) (h : List ο) :
-    (a.prod b).accepts h = (a.accepts h && b.accepts h) := by
+theorem monProd_accepts (a : ObsMonitor ο μ) (b : ObsMonitor ο ν) (h : List ο) :
+    (monProd a b).accepts h = (a.accepts h && b.accepts h) := by
   simp only [ObsMonitor.accepts]
-  exact ObsMonitor.prod_run_isSome a b h (a.init, b.init)
+  exact monProd_run_isSome a b h (a.init, b.init)
 
 /-- if `Q` is false in `s`, true after running `es`, then some step of the run made it true -/
-theorem OLTS.run_first_flip (m : OLTS σ ε ο) (Q : σ → Prop) (s s' : σ) (es : List ε)
+theorem run_first_flip (m : OLTS σ ε ο) (Q : σ → Prop) (s s' : σ) (es : List ε)
     (hr : m.run s es = some s') (h0 : ¬ Q s) (h1 : Q s') :
     ∃ es1 e es2 s0 s1, es = es1 ++ e :: es2 ∧ m.run s es1 = some s0 ∧ m.step s0 e = some s1 ∧
       ¬ Q s0 ∧ Q s1 ∧ m.run s1 es2 = some s' := by
@@ -59,4 +60,4 @@ theorem OLTS.run_first_flip (m : OLTS σ ε ο) (Q : σ → Prop) (s s' : σ) (e
         refine ⟨e :: es1, e', es2, s0, s1, by simp [h1'], ?_, h3, h4, h5, h6⟩
         simp [OLTS.run, hst, h2]
 
-end UtilModel
+end UtilModel.Broadcast
